@@ -25,7 +25,7 @@ class Minimiser:
     def fails(self, case):
         self.tries += 1
         try:
-            res = run_case(case, monitors=self.spec.monitors(case))
+            res = self.spec.execute(case)
         except Exception:
             return False
         if res.harness_error:
